@@ -1,7 +1,8 @@
 (* C01 - lossless round trip.  Only statements; every proof is `exact <lemma>`. *)
-From Coq Require Import List NArith.
+From Coq Require Import List NArith Bool.
 Import ListNotations.
 Require Import Regex Tok Engine Lines Tree.
+Open Scope N_scope.
 
 (* the line list handed to the tokenizer is the input, cut at line breaks only *)
 Theorem C01_lines_concat : forall s, concat (Lines.split_keep s) = s.
@@ -28,3 +29,53 @@ Theorem C01_code_without_prefix : forall t, nonempty_nodes t ->
   get_code t = first_prefix t ++ get_code_noprefix t.
 Proof. exact get_code_noprefix_spec. Qed.
 Print Assumptions C01_code_without_prefix.
+
+
+(* ---------------- the round trip, end to end, on the pipeline model ----------------
+   parse_text = split_keep ; tokenize_lines ; parse  (Model.v, with the regenerated tables).
+   For every version, mode, start rule and text: if the model returns a tree, the code of the tree is the text.
+   (The model is the guarded one: see C09 for the tokenizer guards, Engine.v for PGuard; the tok / parse
+   correspondence streams show model = implementation - never a guard - on all generated inputs.) *)
+Require Import TokTiles ParseKeeps Tables Grammars Model EngineSim.
+Require C09.
+
+Lemma tcode_get_code : forall t, tcode t = get_code t.
+Proof.
+  induction t as [k v p l c|k cs IH] using tree_ind'; [reflexivity|].
+  rewrite tcode_node, get_code_node. unfold tcodes, codes. induction IH as [|c r Hc _ IHr]; simpl; [reflexivity|]. rewrite Hc, IHr. reflexivity.
+Qed.
+
+Lemma block_zero_ok toks : forallb block_zero toks = true -> zero_width_blocks toks.
+Proof.
+  intros H t I TY. rewrite forallb_forall in H. specialize (H t I). unfold block_zero in H. unfold emit1.
+  destruct TY as [TY|TY]; rewrite TY in H; destruct (tpre t); destruct (ts t); try discriminate; reflexivity.
+Qed.
+
+Theorem C01_roundtrip : forall v m start s t, parse_text v m start s = OTree t -> get_code t = s.
+Proof.
+  intros v m start s t H. unfold parse_text in H.
+  destruct (tokenize_text v s) as [toks|] eqn:TK; [|discriminate].
+  destruct (negb (forallb block_zero toks)) eqn:BZ; [discriminate|]. apply negb_false_iff in BZ.
+  destruct (parse_tokens v m start toks) as [t'|] eqn:P; [|discriminate]. inversion H; subst t'.
+  unfold parse_tokens in P. destruct (Engine.assocN v grams) as [[G TR]|]; [|discriminate].
+  rewrite <- tcode_get_code. rewrite (parse_keeps_text G TR _ _ _ _ P (block_zero_ok _ BZ)).
+  apply C09.C09_tokens_tile_text with (v := v). exact TK.
+Qed.
+Print Assumptions C01_roundtrip.
+
+(* every subtree of the parsed tree is a contiguous slice of the input *)
+Theorem C01_roundtrip_subtrees : forall v m start s t path n, parse_text v m start s = OTree t -> subtree t path = Some n ->
+  s = before t path ++ get_code n ++ after t path.
+Proof.
+  intros v m start s t path n H S. rewrite <- (C01_roundtrip _ _ _ _ _ H). apply subtree_slice. exact S.
+Qed.
+
+(* and the in-order leaves tile the input *)
+Theorem C01_leaves_tile : forall v m start s t, parse_text v m start s = OTree t -> concat (map leaf_text (leaves t)) = s.
+Proof. intros v m start s t H. rewrite <- get_code_leaves. eapply C01_roundtrip. exact H. Qed.
+
+Example C01_roundtrip_example :
+  match parse_text 310 Recover 0 [105;102;32;120;58;32;102;111;111;40;10;32;32;121;32;61;32;102;34;123;97;33;114;125;34;10] with
+  | OTree t => get_code t = [105;102;32;120;58;32;102;111;111;40;10;32;32;121;32;61;32;102;34;123;97;33;114;125;34;10] /\ no_error t = false
+  | _ => False end.
+Proof. vm_compute. split; reflexivity. Qed.
